@@ -425,6 +425,22 @@ def check(prop: str) -> int:
         import shutil
         shutil.rmtree(workdir, ignore_errors=True)
         traces = execute(jobs)
+        # A public value outside the model's domain (a non-integer id, a non-string text, an integer the
+        # harness never feeds) can only come from a defect: such an execution is reported directly
+        # (TLC cannot compare values of different kinds) and is not sent to trace validation.
+        clean = []
+        for t in traces:
+            blob = json.dumps([[e["post"], e["out"], e["wr"]] for e in t["events"]])
+            m = re.search(r'"(NONINT|NONSTR|UNREADABLE|BIG):?[^"]{0,60}', blob)
+            if m:
+                pos = next(i for i, e in enumerate(t["events"], 1) if m.group(0)[1:20] in json.dumps([e["post"], e["out"], e["wr"]]))
+                rep.violation({"k": "domain", "token": m.group(1)},
+                              {"kind": "gateway-history", "focus": sorted(spec["focus"]), "input": t["input"], "rejected_at_event": pos,
+                               "failing_clauses": ["value outside the model's domain"], "recorded": t["events"][max(0, pos - 2): pos]},
+                              f"event {pos}: the public state / outcome / writes hold a value of the wrong kind: {m.group(0)[1:]}")
+            else:
+                clean.append(t)
+        traces = clean
         rep.cov["evaluations"] = len(traces)
         rep.cov["events_executed"] = sum(len(t["events"]) for t in traces)
         res = tlc.validate([{"init": t["init"], "events": t["events"]} for t in traces], spec["focus"],
